@@ -4,8 +4,10 @@ stays green (in a scratch copy), run the designated checks, restore /repo. Usage
 import os, sys, subprocess, shutil, json, tempfile, time
 sys.path.insert(0, os.path.dirname(os.path.abspath(__file__)))
 import mutants
-REPO='/repo'; VERIF='/verif'
-env=dict(os.environ, GOFLAGS='-mod=mod', GOPROXY='off', GOSUMDB='off', GOTOOLCHAIN='local')
+SRC='/repo'; REPO='/tmp/selftest-wt'; VERIF='/verif'
+# mutants are applied to a scratch worktree of /repo (removed at the end), never to /repo itself;
+# the checks are pointed at it through VERIF_REPO
+env=dict(os.environ, GOFLAGS='-mod=mod', GOPROXY='off', GOSUMDB='off', GOTOOLCHAIN='local', VERIF_REPO=REPO)
 def sh(cmd, cwd=None, timeout=1200):
     r=subprocess.run(cmd, cwd=cwd, env=env, capture_output=True, text=True, timeout=timeout)
     return r.returncode, r.stdout+r.stderr
@@ -24,7 +26,8 @@ def suite_green(files):
 only=[a for a in sys.argv[1:] if not a.startswith('-')]
 tier='quick'
 res={}
-assert sh(['git','status','--porcelain','--untracked-files=no'], cwd=REPO)[1].strip()=='' , '/repo has uncommitted changes'
+subprocess.run(['git','-C',SRC,'worktree','remove','--force',REPO],capture_output=True)
+assert subprocess.run(['git','-C',SRC,'worktree','add','--detach',REPO,'HEAD'],capture_output=True).returncode==0
 for id,f,old,new,count in mutants.M:
     if id=='M30pre': continue
     if only and id not in only: continue
@@ -59,6 +62,7 @@ for id,f,old,new,count in mutants.M:
             for c,o in outcome.items(): print('    ',c,o['lines'][:2])
     finally:
         sh(['git','checkout','--','.'], cwd=REPO)
+subprocess.run(['git','-C',SRC,'worktree','remove','--force',REPO],capture_output=True)
 json.dump(res,open(os.path.join(VERIF,'selftest','last_run.json'),'w'),indent=1)
 from collections import Counter
 print(Counter(v['status'] for v in res.values()))
